@@ -137,16 +137,24 @@ def r4_only_checked_frames_execute(ck, cx):
     from .c07 import r1_r2
     sub = type(ck)(ck.pid, ck.tier)
     r1_r2(sub, cx)
+    import re
+    exempt = re.compile(r'\[-128 \+ [^;\]]*function_code >= 0\]')
+    r1f = [f for f in sub.findings if f.rule == 'R1']
+    exempt_constructs = {f.construct for f in r1f} - {f.construct for f in r1f
+                                                       if f.detail.startswith('delivery-without-checkFrame') and not exempt.search(f.detail)}
     for o in sub.obligations:
         if o[0] == 'R1':
-            ck.obligations.append(('R4',) + tuple(o[1:]))
-    import re
+            if not o[3] and o[1] in exempt_constructs:
+                # fails for C07, but only function codes >= 0x80 take that path: discharged for C12 (see below)
+                ck.obligations.append(('R4', o[1], o[2] + ' -- or the path is restricted to function codes >= 0x80', True))
+            else:
+                ck.obligations.append(('R4',) + tuple(o[1:]))
     seen = set()
     for f in sub.findings:
         if f.rule != 'R1' or not f.detail.startswith('delivery-without-checkFrame') or (f.construct, f.detail) in seen:
             continue
         seen.add((f.construct, f.detail))
-        if re.search(r'\[-128 \+ [^;\]]*function_code >= 0\]', f.detail):
+        if exempt.search(f.detail):
             # only codes >= 0x80 take the unchecked path: on a server they decode to IllegalFunctionRequest, which
             # touches no datastore (the bogus exception reply is C07 / C09 matter, not a C12 violation)
             ck.note('unchecked delivery restricted to function codes >= 0x80 (%s): cannot mutate a datastore' % f.construct)
